@@ -22,7 +22,8 @@
                                      dialFail (same select with rc == nil)
       worker of one attempt          workerWrite (SetDeadline + Write), workerReadOk /
         (exchangeConnCtx's go func)  workerReadErr (ReadMsgFromTCP), workerPost
-                                     (`resChan <- res`), workerRelA (`rc.close()` or
+                                     (`resChan <- res`), workerReadPart (a partial Read),
+                                     workerRelA (`rc.close()` or
                                      `rc.enterIdle()`), workerRelB (t.m{closed? delete /
                                      idleConns[rc] = ...})
       idle timer of connection c     idleTimer (`closeIfIdle`; may fire at any moment — a
@@ -40,10 +41,11 @@
   The server side of a connection is `pending` (queries received whose reply has not
   been consumed by the client yet, oldest first — these are the replies the server
   still *owes* on that connection, each labelled with the exchange whose query it
-  answers) and `avail` (how many of those replies already sit in the client's receive
-  buffer).  A successful read always consumes the reply to the oldest pending query:
-  that is the FIFO byte stream together with the hypothesis of the property, "a server
-  that sends one reply per query".
+  answers), `avail` (how many of those replies already sit completely in the client's
+  receive buffer) and `halfRead` (the reader has consumed a proper part of the oldest
+  one: `workerReadPart`, one `Read` inside `io.ReadFull`).  A successful read always
+  consumes the reply to the oldest pending query: that is the FIFO byte stream together
+  with the hypothesis of the property, "a server that sends one reply per query".
 
   Observable events are appended to `hist`; the specification (`spec`, below) is a
   monitor over that history only and is written from the text of the property.
@@ -537,8 +539,6 @@ def choosePick (s : State) (picks : List Nat) : Option Nat :=
     match picks[useCount s.hist]? with
     | some p => if p ∈ s.idle then some p else s.idle.head?
     | none => s.idle.head?
-
-def workerOf (k : Conn) : Option Worker := k.worker
 
 /-- next internal step, in an order that yields the canonical event order of one harness op
     (…, err, use, close, ret). -/
